@@ -62,7 +62,7 @@ Lemma wanted_good d l :
 Proof.
   intros [[Hv [v [[l0 [p [r [i [-> [R Hc]]]]]] Hs]]]|[[Hk [k [[l0 [i [kvs [kn [v [-> [R [Hin <-]]]]]]]] Hs]]]
                                                   |[k [[l0 [i [els [m [-> [R [Hin <-]]]]]]] Hs]]]].
-  - exists HVal, l0, p, r. split; [reflexivity|]. split; auto. simpl. split; auto.
+  - exists HValue, l0, p, r. split; [reflexivity|]. split; auto. simpl. split; auto.
     exists i, v. split; auto. apply satb_of; auto.
   - exists HKey, l0, (NMap i kvs), (key_ref kn). split; [reflexivity|]. split; auto. simpl. split; auto.
     exists i, kvs, kn, v. repeat split; auto. apply satb_of; auto.
